@@ -185,7 +185,115 @@ def rule_value_fidelity(ctx):
     rule_precision_and_suffix(ctx)
 
 
+def rule_scalar_forms(ctx):
+    """the form in which an encoder writes a scalar is the form its decoder parses"""
+    R = "VALUE-FIDELITY"
+    m = ctx.repo.module(IO)
+    reg = registry(ctx)
+    n = 0
+    for f in m.functions.values():
+        regs = [d for d in f.node.decorator_list if isinstance(d, ast.Call) and (dotted(d.func) or "").endswith("to_serializable.register")]
+        if not regs:
+            continue
+        for c in ast.walk(f.node):
+            if not (isinstance(c, ast.Call) and dotted(c.func) == "with_signature" and len(c.args) >= 2):
+                continue
+            val = c.args[1]
+            lits = None
+            if isinstance(val, ast.IfExp) and all(isinstance(x, ast.Constant) and isinstance(x.value, str) for x in (val.body, val.orelse)):
+                lits = [val.body.value, val.orelse.value]
+            if lits is None:
+                continue
+            # which decoder gets it: the class name of the registered type (numpy.bool_ is named 'bool' in numpy 2), module as given
+            mod = kwarg(c, "obj_module")
+            mod = mod.value if isinstance(mod, ast.Constant) else ""
+            cands = [(k, fn) for k, fn in reg.items() if k[1] == mod and k[0] and any(k[0].rstrip("_") == (ast.unparse(r.args[0]).split(".")[-1]).rstrip("_") for r in regs)]
+            for key, dec in cands:
+                n += 1
+                rets = [r.value for r in ast.walk(dec) if isinstance(r, ast.Return) and r.value is not None]
+                blunt = [r for r in rets if isinstance(r, ast.Call) and dotted(r.func) == "bool" and r.args and ast.unparse(r.args[0]) == "self.obj"]
+                parses = any(isinstance(x, ast.Compare) and any(isinstance(y, ast.Constant) and isinstance(y.value, str) and y.value.lower() in
+                                                               [l.lower() for l in lits] for y in ast.walk(x)) for x in ast.walk(dec)) \
+                    or any(isinstance(x, ast.Call) and (dotted(x.func) or "").endswith("loads") for x in ast.walk(dec))
+                ok = parses or not blunt
+                ctx.ob(R, f"{IO}::{f.qualname}->{dec.name}::literal-form", ok,
+                       f"{f.qualname} writes {lits} and {dec.name} parses these strings" if ok else
+                       f"{f.qualname} writes the strings {lits}, {dec.name} returns `{ast.unparse(blunt[0])}`: bool() of a non-empty string is "
+                       "True, so a numpy False (and every element of a boolean array) is loaded as True",
+                       f"{m.relpath}:{dec.lineno}")
+    if n < 1:
+        ctx.fail("VALUE-FIDELITY: no encoder / decoder pair with string literals found (confirmed: json_npbool -> bool_handling)")
+
+
+def rule_sniffed_json(ctx):
+    """a user string is parsed as JSON only if the parse can fail harmlessly"""
+    R = "VALUE-FIDELITY"
+    m = ctx.repo.module(IO)
+    n = 0
+    for f in m.functions.values():
+        tries = [t for t in ast.walk(f.node) if isinstance(t, ast.Try)]
+        for br in ast.walk(f.node):
+            if not isinstance(br, ast.If):
+                continue
+            sniff = [c for c in ast.walk(br.test) if isinstance(c, ast.Compare) and len(c.ops) == 1 and isinstance(c.ops[0], ast.In)
+                     and isinstance(c.left, ast.Constant) and isinstance(c.left.value, str) and isinstance(c.comparators[0], ast.Name)]
+            if not sniff:
+                continue
+            var = sniff[0].comparators[0].id
+            loads = [c for st in br.body for c in ast.walk(st) if isinstance(c, ast.Call) and (dotted(c.func) or "").endswith("json.loads")
+                     and c.args and ast.unparse(c.args[0]) == var]
+            for c in loads:
+                n += 1
+                guarded = any(any(c in list(ast.walk(st)) for st in t.body) and t.handlers for t in tries)
+                ctx.ob(R, f"{IO}::{f.qualname}::sniffed-json:{sniff[0].left.value}", guarded,
+                       f"json.loads({var}) after the substring test is allowed to fail" if guarded else
+                       f"`{norm(br.test, 70)}` decides by a substring that the user's string {var} is JSON and `{norm(c, 40)}` is not "
+                       f"guarded: an ordinary string containing '{sniff[0].left.value}' (a net name, a description) makes to_json raise "
+                       "JSONDecodeError", f.loc(c))
+    if n < 1:
+        ctx.fail("VALUE-FIDELITY: substring-sniffed json.loads not found (confirmed: json_pandapowernet)")
+
+
+def rule_index_cast_siblings(ctx):
+    """every reader converts table labels to int64 'if possible': the attempts are siblings and must tolerate the same failures"""
+    R = "VALUE-FIDELITY"
+    m = ctx.repo.module(IO)
+    n = 0
+    for f in m.functions.values():
+        for t in ast.walk(f.node):
+            if not (isinstance(t, ast.Try) and len(t.body) == 1 and t.handlers):
+                continue
+            st = t.body[0]
+            txt = ast.unparse(st)
+            cast = None
+            for c in ast.walk(st):
+                if isinstance(c, ast.Call) and "int64" in ast.unparse(c):
+                    if isinstance(c.func, ast.Attribute) and c.func.attr == "astype" and ast.unparse(c.func.value).endswith((".index", ".columns", ".values")):
+                        cast = c
+                    if ast.unparse(c.func) == "pd.Index" and any(k.arg == "dtype" for k in c.keywords):
+                        cast = c
+            if cast is None:
+                continue
+            n += 1
+            caught = set()
+            for h in t.handlers:
+                if h.type is None:
+                    caught.add("Exception")
+                else:
+                    caught |= {ast.unparse(x).split(".")[-1] for x in (h.type.elts if isinstance(h.type, ast.Tuple) else [h.type])}
+            ok = bool(caught & {"ValueError", "Exception", "BaseException"})
+            ctx.ob(R, f"{IO}::{f.qualname}::label-cast@{norm(cast, 40)}", ok,
+                   f"`{norm(cast, 50)}` may fail with {sorted(caught)}" if ok else
+                   f"`{norm(cast, 60)}` is tried with `except {', '.join(sorted(caught))}` only: string labels raise ValueError (invalid literal "
+                   "for int()), which the other readers catch at the same conversion - a table with string labels cannot be loaded", f.loc(t))
+    if n < 4:
+        ctx.fail(f"VALUE-FIDELITY: only {n} guarded label conversions found in io_utils (confirmed: 4)")
+
+
 def rule_precision_and_suffix(ctx):
+    rule_scalar_forms(ctx)
+    rule_sniffed_json(ctx)
+    rule_index_cast_siblings(ctx)
     R = "VALUE-FIDELITY"
     m = ctx.repo.module(IO)
     n = 0
@@ -382,6 +490,10 @@ def variants_r5(V):
     io = "pandapower/io_utils.py"
     return [
         V("series written with the pandas default precision", io, in_function("json_series", lambda s: s.replace("obj.to_json(orient=orient, default_handler=to_serializable,\n                                        double_precision=15)", "obj.to_json(orient=orient, default_handler=to_serializable)", 1)), "json_series::double_precision"),
+        V("numpy booleans decoded with bool()", io, lambda s: s.replace('        if isinstance(self.obj, str):\n            return self.obj.lower() == "true"\n        return bool(self.obj)\n', '        return bool(self.obj)\n', 1), "literal-form"),
+        V("twin: numpy booleans decoded through json", io, lambda s: s.replace('        if isinstance(self.obj, str):\n            return self.obj.lower() == "true"\n        return bool(self.obj)\n', '        return bool(json.loads(self.obj)) if isinstance(self.obj, str) else bool(self.obj)\n', 1), None),
+        V("sniffed JSON parsed unguarded", io, lambda s: s.replace("            try:\n                net_dict[k] = json.loads(item)\n            except json.JSONDecodeError:\n                pass", "            net_dict[k] = json.loads(item)", 1), "sniffed-json"),
+        V("pickle reader catches TypeError only", io, replace_once("                    df_index = pd.Index(df_dict['index'], dtype=numpy.int64)\n                except (TypeError, ValueError):", "                    df_index = pd.Index(df_dict['index'], dtype=numpy.int64)\n                except TypeError:"), "label-cast"),
         V("profile key derived with rstrip", io, in_function("from_dict_of_dfs", replace_once('net["profiles"][item[:-9]] = table', 'net["profiles"][item.rstrip("_profiles")] = table')), "suffix:_profiles"),
         V("profile key cut one short", io, in_function("from_dict_of_dfs", replace_once('net["profiles"][item[:-9]] = table', 'net["profiles"][item[:-8]] = table')), "suffix:_profiles"),
         V("twin: profile key through removesuffix", io, in_function("from_dict_of_dfs", replace_once('net["profiles"][item[:-9]] = table', 'net["profiles"][item.removesuffix("_profiles")] = table')), None),
